@@ -199,8 +199,12 @@ def page_cases():
     # CSS 2.1 page selectors: an optional page name and at most one pseudo-page
     for name in ['', 'n', 'toc', 'Chapter-1']:
         for ps in ['', ':first', ':left', ':right']:
-            out.append(('page', name + ps, (1 if name else 0, 1 if ps == ':first' else 0,
-                                            1 if ps in (':left', ':right') else 0)))
+            spec = (1 if name else 0, 1 if ps == ':first' else 0, 1 if ps in (':left', ':right') else 0)
+            out.append(('page', name + ps, spec))
+            if ps:
+                # pseudo-page names are case-insensitive and may be written with escapes (C10)
+                out.append(('page', name + ps.upper(), spec))
+                out.append(('page', name + ps[:2] + '\\' + ps[2:], spec) if ps[2] not in 'abcdef' else ('page', name + ps.title(), spec))
     return out
 
 
